@@ -37,9 +37,9 @@ def install(eng):
         return seq_len(eng, vec_of(args[0], eng))
     m(r'^(std::vec::|alloc::vec::)?Vec::len$', m_vec_len)
     m(r'^bumpalo::collections::Vec::len$', m_vec_len)
-    m(r'^core::slice::<impl \[T\]>::len$', lambda e, a, c: e.slice_len(as_slice(e, a[0])))
+    m(r'^core::slice::<impl \[.*\]>::len$', lambda e, a, c: e.slice_len(as_slice(e, a[0])))
     m(r'^(std::vec::|alloc::vec::)?Vec::is_empty$', lambda e, a, c: as_bool(z3.simplify(seq_len(e, vec_of(a[0], e)) == 0)))
-    m(r'^core::slice::<impl \[T\]>::is_empty$', lambda e, a, c: as_bool(z3.simplify(e.slice_len(as_slice(e, a[0])) == 0)))
+    m(r'^core::slice::<impl \[.*\]>::is_empty$', lambda e, a, c: as_bool(z3.simplify(e.slice_len(as_slice(e, a[0])) == 0)))
     def bounds(eng, idx, ln, what):
         ok = eng.fork_bool(z3.ULT(idx, ln))
         if not ok:
@@ -97,7 +97,7 @@ def install(eng):
             return EnumV(ctx.dest_ty and norm_ty(ctx.dest_ty) or 'Option', 1,
                          {'Some': {0: Cell(Ref(eng.seq_cell(s.seq, bvadd(s.start, i))))}}, None, ed)
         return EnumV(ctx.dest_ty and norm_ty(ctx.dest_ty) or 'Option', 0, None, None, ed)
-    m(r'^core::slice::<impl \[T\]>::get(_mut)?$', m_slice_get)
+    m(r'^core::slice::<impl \[.*\]>::get(_mut)?$', m_slice_get)
     def m_get_unchecked(eng, args, ctx):
         s = as_slice(eng, args[0])
         i = args[1]
@@ -105,7 +105,7 @@ def install(eng):
         if not eng.fork_bool(z3.ULT(i, ln)):
             raise PathEnd('oob', ('get_unchecked out of bounds', ctx.norm))
         return Ref(eng.seq_cell(s.seq, bvadd(s.start, i)))
-    m(r'^core::slice::<impl \[T\]>::get_unchecked(_mut)?$', m_get_unchecked)
+    m(r'^core::slice::<impl \[.*\]>::get_unchecked(_mut)?$', m_get_unchecked)
     def m_truncate(eng, args, ctx):
         v = vec_of(args[0], eng)
         n = args[1]
@@ -157,7 +157,7 @@ def install(eng):
             return SliceIter(self.s, self.pos, self.mutable)
     def m_iter(eng, args, ctx):
         return SliceIter(as_slice(eng, args[0]), None, 'mut' in ctx.norm)
-    m(r'^core::slice::<impl \[T\]>::iter(_mut)?$', m_iter)
+    m(r'^core::slice::<impl \[.*\]>::iter(_mut)?$', m_iter)
     m(r'^<&(mut )?\[.*\] as (std::iter::|core::iter::)?IntoIterator>::into_iter$', m_iter)
     m(r'^<&(mut )?(std::vec::|alloc::vec::)?Vec as (std::iter::|core::iter::)?IntoIterator>::into_iter$', m_iter)
     m(r'^<&(mut )?bumpalo::collections::Vec as (std::iter::|core::iter::)?IntoIterator>::into_iter$', m_iter)
@@ -175,7 +175,103 @@ def install(eng):
     m(r'^<(std|core)::slice::Iter(Mut)? as (std::iter::|core::iter::)?Iterator>::next$', m_iter_next)
     eng.SliceIter = SliceIter
     m(r'^<.* as (std::iter::|core::iter::)?IntoIterator>::into_iter$',
-      lambda e, a, c: a[0], front=False)
+      lambda e, a, c: a[0], fallback=True)
+    # ---------------------------------------------------------------- generic iterators (lazy adaptors)
+    class MapIter:
+        def __init__(self, it, f):
+            self.it, self.f = it, f
+
+    class ZipIter:
+        def __init__(self, a, b):
+            self.a, self.b = a, b
+
+    class EnumIter:
+        def __init__(self, it):
+            self.it, self.n = it, bv(0, 64)
+
+    class RevRange:
+        def __init__(self, r):
+            self.r = r
+
+    def it_next(eng, it, fr):
+        """-> value or None (forks)"""
+        if isinstance(it, Ref):
+            it = it.cell.get(eng)
+        if isinstance(it, SliceIter):
+            s = it.s
+            if eng.fork_bool(z3.ULT(it.pos, eng.slice_len(s))):
+                c = eng.seq_cell(s.seq, bvadd(s.start, it.pos))
+                it.pos = bvadd(it.pos, bv(1, 64))
+                return Ref(c)
+            return None
+        if isinstance(it, Struct) and ty_head(it.ty) == 'Range':
+            st, en = it.f[0].get(eng), it.f[1].get(eng)
+            if eng.fork_bool(z3.ULT(st, en)):
+                it.f[0].set(eng, z3.simplify(st + 1))
+                return st
+            return None
+        if isinstance(it, MapIter):
+            v = it_next(eng, it.it, fr)
+            if v is None:
+                return None
+            return eng.call_value(fr, it.f, [v])
+        if isinstance(it, ZipIter):
+            a = it_next(eng, it.a, fr)
+            if a is None:
+                return None
+            b = it_next(eng, it.b, fr)
+            if b is None:
+                return None
+            return Struct('()', [Cell(a), Cell(b)])
+        if isinstance(it, EnumIter):
+            v = it_next(eng, it.it, fr)
+            if v is None:
+                return None
+            i = it.n
+            it.n = bvadd(it.n, bv(1, 64))
+            return Struct('()', [Cell(i), Cell(v)])
+        nx = getattr(it, 'iter_next', None)
+        if nx is not None:
+            return nx(eng, fr)
+        raise Unsupported('iteration over ' + type(it).__name__ + (' ' + it.ty if isinstance(it, Struct) else ''))
+    eng.it_next = it_next
+    eng.ZipIter = ZipIter
+    eng.MapIter = MapIter
+
+    def m_gen_next(eng, args, ctx):
+        v = it_next(eng, args[0], ctx.frame)
+        oty = norm_ty(ctx.dest_ty) if ctx.dest_ty else 'Option'
+        return opt(eng, oty) if v is None else opt(eng, oty, v)
+    m(r'^<(std::ops::|core::ops::)?Range as (std::iter::|core::iter::)?Iterator>::next$', lambda e, a, c: m_gen_next(e, a, c))
+    m(r'^<(std::iter::|core::iter::)?(adapters::)?(\w+::)?(Map|Zip|Enumerate) as (std::iter::|core::iter::)?Iterator>::next$', lambda e, a, c: m_gen_next(e, a, c))
+    m(r'^<.* as (std::iter::|core::iter::)?Iterator>::map$', lambda e, a, c: MapIter(a[0], a[1]), fallback=True)
+    m(r'^<.* as (std::iter::|core::iter::)?Iterator>::zip$', lambda e, a, c: ZipIter(a[0], a[1] if not isinstance(a[1], (Ref, SymSeq, ConcSeq, SliceRef)) or isinstance(a[1], Ref) and isinstance(a[1].cell.get(e), SliceIter) else SliceIter(as_slice(e, a[1]))), fallback=True)
+    m(r'^<.* as (std::iter::|core::iter::)?Iterator>::enumerate$', lambda e, a, c: EnumIter(a[0]), fallback=True)
+
+    def m_collect(eng, args, ctx):
+        out = []
+        while True:
+            v = it_next(eng, args[0], ctx.frame)
+            if v is None:
+                break
+            out.append(Cell(v))
+            if len(out) > eng.loop_bound:
+                raise PathEnd('unwind', ('collect', ctx.frame.fn.name if ctx.frame else None))
+        dty = norm_ty(ctx.dest_ty) if ctx.dest_ty else ''
+        a = ty_args(dty)
+        return ConcSeq(a[0] if a else None, out)
+    m(r'^<.* as (std::iter::|core::iter::)?Iterator>::collect$', m_collect, fallback=True)
+
+    def m_ptr_eq(eng, args, ctx):
+        a, b = args
+        if isinstance(a, Ref) and isinstance(b, Ref):
+            return a.cell is b.cell
+        pb = getattr(a, 'ptr_binop', None)
+        if pb is not None:
+            return pb(eng, 'Eq', a, b)
+        raise Unsupported('ptr::eq on ' + type(a).__name__)
+    m(r'^((std|core)::ptr::)?eq$', m_ptr_eq)
+
     # ---------------------------------------------------------------- Option / Result helpers not in MIR
     def opt(eng, ty, val=None):
         ed = eng.P.enum_def('Option')
@@ -235,6 +331,20 @@ def install(eng):
             return payload0(eng, e, 'Some')
         return d
     m(r'^(std::option::|core::option::)?Option::unwrap_or$', m_opt_unwrap_or)
+    def m_opt_or_else(eng, args, ctx):
+        e_, f = args
+        if variant_is(eng, e_, 1):
+            return e_
+        return eng.call_value(ctx.frame, f, [])
+    m(r'^(std::option::|core::option::)?Option::or_else$', m_opt_or_else)
+
+    def m_opt_or(eng, args, ctx):
+        e_, o = args
+        if variant_is(eng, e_, 1):
+            return e_
+        return o
+    m(r'^(std::option::|core::option::)?Option::or$', m_opt_or)
+
     def m_opt_unwrap_or_else(eng, args, ctx):
         e, f = args
         if variant_is(eng, e, 1 if ty_head(e.ty) == 'Option' else 0):
@@ -260,6 +370,31 @@ def install(eng):
             return EnumV(rty, 0, {'Ok': {0: Cell(payload0(eng, e, 'Some'))}}, None, ed)
         return EnumV(rty, 1, {'Err': {0: Cell(err)}}, None, ed)
     m(r'^(std::option::|core::option::)?Option::ok_or$', m_opt_ok_or)
+    def m_opt_cloned(eng, args, ctx):
+        e_ = args[0]
+        oty = norm_ty(ctx.dest_ty) if ctx.dest_ty else 'Option'
+        if variant_is(eng, e_, 0):
+            return opt(eng, oty)
+        v = payload0(eng, e_, 'Some')
+        if isinstance(v, Ref):
+            v = eng.copy_value(v.cell.get(eng))
+        return opt(eng, oty, v)
+    m(r'^(std::option::|core::option::)?Option::(cloned|copied)$', m_opt_cloned)
+
+    def m_from_elem(eng, args, ctx):
+        x, n = args
+        dty = norm_ty(ctx.dest_ty) if ctx.dest_ty else None
+        ety = ty_args(dty)[0] if dty and ty_args(dty) else None
+        if ety is None:
+            g = re.search(r'from_elem<(.*)>$', norm_ty(ctx.callee))
+            ety = g.group(1) if g else 'u8'
+        s_ = eng.fresh_seq(ety, NameBacking(eng.fresh_name('from_elem')), n)
+        so = s_.arr.sort().range()
+        term = x if s_.scalar_sort is not None else eng.elem_term(x, so, s_.tyname)
+        s_.arr = z3.K(z3.BitVecSort(64), term)
+        return s_
+    m(r'^(std|alloc)::vec::from_elem$', m_from_elem)
+
     def m_opt_take(eng, args, ctx):
         c = args[0].cell
         e = c.get(eng)
@@ -298,11 +433,27 @@ def install(eng):
         return EnumV(rty, 1, {'Err': {0: Cell(err)}}, None, eng.P.enum_def('Result'))
     m(r'^<(std::result::|core::result::)?Result as (std::ops::|core::ops::)?FromResidual>::from_residual$', m_from_residual)
     m(r'^<(std::option::|core::option::)?Option as (std::ops::|core::ops::)?FromResidual>::from_residual$', m_from_residual)
+    def m_fn_call(eng, args, ctx):
+        f = args[0]
+        tup = args[1] if len(args) > 1 else UNIT
+        vals = [tup.f[i].get(eng) for i in sorted(tup.f)] if isinstance(tup, Struct) else []
+        return eng.call_value(ctx.frame, f, vals)
+    m(r'^<.* as (std::ops::|core::ops::)?Fn(Once|Mut)?>::call(_once|_mut)?$', m_fn_call)
+
+    def m_default_ne(eng, args, ctx):
+        callee = re.sub(r'::ne$', '::eq', ctx.callee)
+        from .tys import normalise_callee
+        f, subst = eng.resolve(callee, normalise_callee(callee), args, ctx.frame)
+        if f is None:
+            raise Unsupported('PartialEq::ne without an eq body: ' + ctx.callee)
+        return b_not(eng.exec_fn(f, args, (ctx.frame.depth + 1) if ctx.frame else 0, subst))
+    m(r'^<.* as (std::cmp::|core::cmp::)?PartialEq>::ne$', m_default_ne, fallback=True)
+
     # identity conversions
-    m(r'^<.* as (std::convert::|core::convert::)?From>::from$', lambda e, a, c: a[0], front=False)
-    m(r'^<.* as (std::convert::|core::convert::)?Into>::into$', lambda e, a, c: a[0], front=False)
+    m(r'^<.* as (std::convert::|core::convert::)?From>::from$', lambda e, a, c: a[0], fallback=True)
+    m(r'^<.* as (std::convert::|core::convert::)?Into>::into$', lambda e, a, c: a[0], fallback=True)
     m(r'^<.* as (std::clone::|core::clone::)?Clone>::clone$',
-      lambda e, a, c: e.copy_value(a[0].cell.get(e)), front=False)
+      lambda e, a, c: e.copy_value(a[0].cell.get(e)), fallback=True)
     m(r'^(std::mem::|core::mem::)(forget|drop)$', lambda e, a, c: UNIT)
     m(r'^(std::mem::|core::mem::)drop$', lambda e, a, c: UNIT)
     def m_replace(eng, args, ctx):
@@ -331,6 +482,191 @@ def install(eng):
             raise Unsupported('align_of without type')
         return bv(eng.align_of(g.group(1), ctx.frame), 64)
     m(r'^(std::mem::|core::mem::)align_of$', m_align_of)
+    # ---------------------------------------------------------------- bumpalo vectors (same model as Vec)
+    m(r'^bumpalo::collections::Vec::push$', m_vec_push)
+    m(r'^bumpalo::collections::Vec::pop$', m_vec_pop)
+    m(r'^bumpalo::collections::Vec::is_empty$', lambda e, a, c: as_bool(z3.simplify(seq_len(e, vec_of(a[0], e)) == 0)))
+
+    def m_extend_from_slice(eng, args, ctx):
+        v = vec_of(args[0], eng)
+        src = as_slice(eng, args[1])
+        n = conc(z3.simplify(eng.slice_len(src)))
+        if n is None:
+            raise Unsupported('extend_from_slice with symbolic length')
+        for i in range(n):
+            x = eng.copy_value(eng.seq_cell(src.seq, bvadd(src.start, bv(i, 64))).get(eng))
+            if isinstance(v, SymSeq):
+                v.store(eng, v.len, x)
+                v.len = bvadd(v.len, bv(1, 64))
+            else:
+                v.cells.append(Cell(x))
+        return UNIT
+    m(r'^(bumpalo::collections::|std::vec::|alloc::vec::)?Vec::extend_from_slice$', m_extend_from_slice)
+
+    # ---------------------------------------------------------------- Rc<RefCell<T>>
+    class RcRefCell:
+        rust_ty = 'Rc<RefCell>'
+
+        def __init__(self, inner):
+            self.inner = inner
+
+        def copy_value(self, eng):
+            return self
+
+    def mat_rc_refcell(eng, ty, backing):
+        t = norm_ty(ty)
+        inner = ty_args(ty_args(t)[0])[0]
+        key = ('rc', backing.key())
+        v = eng.memo.get(key)
+        if v is None:
+            v = RcRefCell(Cell(Lazy(inner, backing.child('rc'))))
+            eng.memo[key] = v
+        return v
+    eng.materialiser(r'^(std::rc::|alloc::rc::)?Rc<(std::cell::|core::cell::)?RefCell<.*>>$', mat_rc_refcell)
+    eng.RcRefCell = RcRefCell
+
+    def rc_of(eng, v):
+        while isinstance(v, Ref):
+            v = v.cell.get(eng)
+        if not isinstance(v, RcRefCell):
+            raise Unsupported('expected Rc<RefCell<_>>, got ' + type(v).__name__)
+        return v
+    m(r'^<(std::rc::|alloc::rc::)?Rc as (std::ops::|core::ops::)?Deref>::deref$', lambda e, a, c: Ref(Cell(rc_of(e, a[0]))))
+    m(r'^<(std::rc::|alloc::rc::)?Rc as (std::clone::|core::clone::)?Clone>::clone$', lambda e, a, c: rc_of(e, a[0]))
+    m(r'^(std::cell::|core::cell::)?RefCell::borrow(_mut)?$',
+      lambda e, a, c: rc_of(e, a[0]) if isinstance(_deep(e, a[0]), RcRefCell) else _refcell_plain(e, a, c))
+    m(r'^<(std::cell::|core::cell::)?Ref(Mut)? as (std::ops::|core::ops::)?Deref(Mut)?>::deref(_mut)?$',
+      lambda e, a, c: Ref(rc_of(e, a[0]).inner) if isinstance(_deep(e, a[0]), RcRefCell) else _deep_ref(e, a[0]))
+
+    def _deep(eng, v):
+        while isinstance(v, Ref):
+            v = v.cell.get(eng)
+        return v
+
+    def _deep_ref(eng, v):
+        # &RefMut<T> where RefMut is modelled as &T
+        while isinstance(v, Ref) and isinstance(v.cell.get(eng), Ref):
+            v = v.cell.get(eng)
+        return v
+
+    def _refcell_plain(eng, a, c):
+        # RefCell<T> stored inline: modelled as a struct whose only content is T (havoc unless materialised)
+        return eng.fresh(c.dest_ty, eng.fresh_name('refcell_borrow')) if c.dest_ty else UNIT
+
+    # ---------------------------------------------------------------- raw pointers (element granular)
+    def as_seqptr(eng, p):
+        if isinstance(p, SliceRef):
+            return SeqPtr(p.seq, p.start)
+        if isinstance(p, Ref) and isinstance(p.cell, SeqElemCell):
+            return SeqPtr(p.cell.seq, p.cell.idx)
+        return p
+    eng.as_seqptr = as_seqptr
+
+    def m_ptr_offset(eng, args, ctx):
+        p, n = args
+        op = ctx.norm.rsplit('::', 1)[1]
+        p = as_seqptr(eng, p)
+        if isinstance(p, Ref):
+            c = conc(n)
+            if c == 0:
+                return p
+            raise Unsupported('offset of a pointer to a single object')
+        off = getattr(p, 'offset', None)
+        if off is None:
+            raise Unsupported('pointer arithmetic on ' + type(p).__name__)
+        if op in ('sub', 'wrapping_sub'):
+            n = z3.simplify(-n)
+        return off(eng, n)
+    m(r'^(std|core)::ptr::(mut_ptr|const_ptr)::<impl \*(mut|const) .*>::(offset|add|sub|wrapping_add|wrapping_sub|wrapping_offset)$', m_ptr_offset)
+
+    def m_ptr_offset_from(eng, args, ctx):
+        a, b = as_seqptr(eng, args[0]), as_seqptr(eng, args[1])
+        of = getattr(a, 'offset_from', None)
+        if of is not None:
+            return of(eng, b)
+        if isinstance(a, SeqPtr) and isinstance(b, SeqPtr):
+            if a.seq is not b.seq:
+                raise PathEnd('ub', 'offset_from between different allocations')
+            return z3.simplify(a.idx - b.idx)
+        raise Unsupported('offset_from on ' + type(a).__name__)
+    m(r'^(std|core)::ptr::(mut_ptr|const_ptr)::<impl \*(mut|const) .*>::(offset_from|offset_from_unsigned|sub_ptr)$', m_ptr_offset_from)
+
+    def m_ptr_read(eng, args, ctx):
+        p = args[0]
+        if isinstance(p, Ref):
+            return eng.copy_value(p.cell.get(eng))
+        return eng.copy_value(p.deref_cell(eng).get(eng))
+    m(r'^(std|core)::ptr::read(_unaligned|_volatile)?$', m_ptr_read)
+    m(r'^(std|core)::ptr::(mut_ptr|const_ptr)::<impl \*(mut|const) .*>::read(_unaligned|_volatile)?$', m_ptr_read)
+
+    def m_ptr_write(eng, args, ctx):
+        p, v = args
+        if isinstance(p, Ref):
+            p.cell.set(eng, v)
+        else:
+            p.deref_cell(eng).set(eng, v)
+        return UNIT
+    m(r'^(std|core)::ptr::write(_unaligned|_volatile)?$', m_ptr_write)
+    m(r'^(std|core)::ptr::mut_ptr::<impl \*mut .*>::write(_unaligned|_volatile)?$', m_ptr_write)
+
+    def m_is_null(eng, args, ctx):
+        return isinstance(args[0], NullPtr)
+    m(r'^(std|core)::ptr::(mut_ptr|const_ptr)::<impl \*(mut|const) .*>::is_null$', m_is_null)
+    m(r'^((std|core)::ptr::)?null(_mut)?$', lambda e, a, c: NullPtr())
+
+    def m_from_raw_parts(eng, args, ctx):
+        p, n = args
+        if isinstance(p, SeqPtr):
+            # bounds: [idx, idx+n) within the allocation (n == 0 allowed anywhere inside or one past)
+            ok = eng.fork_bool(z3.And(z3.ULE(p.idx, p.seq.len), z3.ULE(n, p.seq.len - p.idx)))
+            if not ok:
+                raise PathEnd('oob', ('slice::from_raw_parts outside the allocation', str(p.idx), str(n)))
+            eng.note_access(SeqPtr(p.seq, p.idx))
+            acc = eng.path_state.get('slices')
+            if acc is not None:
+                acc.append((p.seq, p.idx, n))
+            return SliceRef(p.seq, p.idx, n)
+        if isinstance(p, SliceRef):
+            return SliceRef(p.seq, p.start, n)
+        frp = getattr(p, 'from_raw_parts', None)
+        if frp is not None:
+            return frp(eng, n)
+        raise Unsupported('from_raw_parts on ' + type(p).__name__)
+    m(r'^(std|core)::slice::from_raw_parts(_mut)?$', m_from_raw_parts)
+
+    def m_slice_as_ptr(eng, args, ctx):
+        s = as_slice(eng, args[0])
+        return SeqPtr(s.seq, s.start)
+    m(r'^core::slice::<impl \[.*\]>::as_(mut_)?ptr$', m_slice_as_ptr)
+
+    def m_nonnull_as(eng, args, ctx):
+        p = args[0]
+        if isinstance(p, Ref) and ctx.norm.endswith(('as_ref', 'as_mut')):
+            # &NonNull<T> -> &T : NonNull is modelled as the pointer itself
+            inner = p.cell.get(eng)
+            if isinstance(inner, (Ref, SeqPtr)) or hasattr(inner, 'deref_cell'):
+                return inner if isinstance(inner, Ref) else Ref(inner.deref_cell(eng))
+        return p
+    m(r'^(std::ptr::|core::ptr::)?NonNull::(as_ref|as_mut)$', m_nonnull_as)
+    m(r'^(std::ptr::|core::ptr::)?NonNull::(as_ptr|new_unchecked|cast)$', lambda e, a, c: a[0])
+    m(r'^<(std::ptr::|core::ptr::)?NonNull as (std::convert::|core::convert::)?From>::from$', lambda e, a, c: a[0])
+
+    def m_try_into_array(eng, args, ctx):
+        # <&[T] as TryInto<[T; N]>>::try_into
+        s = args[0]
+        dty = norm_ty(ctx.dest_ty)
+        m_ = re.search(r'\[(\w+); (\d+)\]', dty)
+        if not isinstance(s, SliceRef) or not m_:
+            raise Unsupported('try_into ' + dty)
+        n = int(m_.group(2))
+        ln = eng.slice_len(s)
+        ed = eng.P.enum_def('Result')
+        if eng.fork_bool(ln == n):
+            cells = [Cell(eng.copy_value(eng.seq_cell(s.seq, bvadd(s.start, bv(i, 64))).get(eng))) for i in range(n)]
+            return EnumV(dty, 0, {'Ok': {0: Cell(ConcSeq(m_.group(1), cells))}}, None, ed)
+        return EnumV(dty, 1, {'Err': {0: Cell(UNIT)}}, None, ed)
+    m(r'^<&(mut )?\[.*\] as (std::convert::|core::convert::)?TryInto>::try_into$', m_try_into_array)
+
     # ---------------------------------------------------------------- integer helpers
     def int_ty_of(ctx):
         g = re.search(r'<impl ([iu]\d+|[iu]size)>', ctx.norm)
@@ -378,8 +714,12 @@ def install(eng):
         return z3.simplify(z3.If(lt, b, a))
     m(r'^(std::cmp::|core::cmp::)(min|max)$', m_minmax)
     m(r'^<[iu](\d+|size) as (std::cmp::|core::cmp::)?Ord>::(min|max)$', m_minmax)
-    m(r'^core::num::<impl u16>::to_ne_bytes$', lambda e, a, c: ConcSeq('u8', [Cell(z3.simplify(z3.Extract(7, 0, a[0]))), Cell(z3.simplify(z3.Extract(15, 8, a[0])))]))
-    m(r'^core::num::<impl u16>::to_le_bytes$', lambda e, a, c: ConcSeq('u8', [Cell(z3.simplify(z3.Extract(7, 0, a[0]))), Cell(z3.simplify(z3.Extract(15, 8, a[0])))]))
+    def m_to_bytes(eng, args, ctx):
+        x = args[0]
+        n = x.size() // 8
+        return ConcSeq('u8', [Cell(z3.simplify(z3.Extract(8 * i + 7, 8 * i, x))) for i in range(n)])
+    m(r'^core::num::<impl [iu](16|32|64|size)>::to_(ne|le)_bytes$', m_to_bytes)
+
     def m_from_ne_bytes(eng, args, ctx):
         arr = args[0]
         bs = [c.get(eng) for c in arr.cells]
@@ -403,6 +743,15 @@ def install(eng):
         x = args[0]
         return z3.fpSub(RNE, x, z3.fpRoundToIntegral(z3.RTZ(), x))
     m(r'^(std|core)::f64::<impl f64>::fract$', m_fract)
+    def m_not(eng, args, ctx):
+        a = args[0]
+        while isinstance(a, Ref):
+            a = a.cell.get(eng)
+        if isinstance(a, bool) or z3.is_bool(a):
+            return b_not(a)
+        return z3.simplify(~a)
+    m(r'^<&?(bool|[iu]\d+|[iu]size) as (std::ops::|core::ops::)?Not>::not$', m_not)
+
     # ---------------------------------------------------------------- misc
     m(r'^(std::hint::|core::hint::)black_box$', lambda e, a, c: a[0])
     m(r'^(std::hint::|core::hint::)assert_unchecked$', lambda e, a, c: UNIT)
@@ -511,4 +860,7 @@ def value_eq(eng, a, b, fr=None):
         for k in sorted(set(a.f) | set(b.f)):
             r = b_and(r, value_eq(eng, a.f[k].get(eng), b.f[k].get(eng), fr))
         return r
+    pb = getattr(a, 'ptr_binop', None)
+    if pb is not None:
+        return pb(eng, 'Eq', a, b)
     raise Unsupported(f'value_eq on {type(a).__name__},{type(b).__name__}')
